@@ -20,14 +20,15 @@ fn main() {
     let check = Check::from_args("C05", Level::Exploration);
     let thorough = check.thorough();
     check.set_rule(
-        "three exhaustively enumerated families, every member fed to every applicable public reading entry point: \
+        "four exhaustively enumerated families, every member fed to every applicable public reading entry point: \
          (1) words: all words of length <= 4 (thorough 5) over an 18-letter alphabet of encoded structural atoms plus all words of length <= 3 over the full 27-letter alphabet, \
          encoded in Implicit VR LE / Explicit VR LE / Explicit VR BE; the bare encoding goes to DataSetReader (3 value strategies x flexible on/off, 3 odd-length strategies), LazyDataSetReader (skip / into_owned, odd-length strategies), read_dataset_with_ts + dump, DicomCollector on a bare data set; \
-         wrapped as a Part 10 file with a valid meta group and preamble it goes to from_reader (odd-length strategies x preamble options) + dump + pixel decoding and DicomCollector (6 operation scripts); words of <= 3 letters also without preamble and with every configuration, words of <= 2 letters also through open_file; 5-letter words (thorough) go bare to DataSetReader (preserved; interpreted+flexible) and LazyDataSetReader (into_owned) only; \
+         wrapped as a Part 10 file with a valid meta group and preamble it goes to from_reader + dump + pixel decoding and DicomCollector (4-letter words: default options and the meta+to_end script only; words of <= 3 letters: odd-length strategies x preamble options, 6 collector scripts, and also without preamble), words of <= 2 letters also through open_file; 5-letter words (thorough) go bare to DataSetReader (preserved; interpreted+flexible) and LazyDataSetReader (into_owned) only; \
          (2) edits: for every seed (one data set per atom class x 3 syntaxes, nested and encapsulated data sets, 5 files incl. RLE/native/deflated, the meta group, 7 PDU kinds, RLE/JPEG/deflated/uncompressed frames, 2 DICOM JSON documents, 13 tag/selector/date/time/range strings) \
          the seed, every truncation, every single-byte substitution from {00,01,7F,80,FE,FF,'A','\\'} (text seeds: 22 characters incl. 2-,3-,4-byte scalars), every single deletion, every single duplication, and every pair of substitutions inside 16-byte header windows (quick: primary windows only); \
          (3) short inputs: every byte string of length <= 2 bare, as body of each PDU type, after the magic code, as meta group content and as data set of a valid file (thorough: also every 3-byte string, bare, for read_pdu, FileMetaTable::from_reader, DataSetReader and LazyDataSetReader); every string over a 14-class alphabet up to 6 (thorough 7) bytes and over a 6-class alphabet up to 9 (thorough 11) bytes for Tag::from_str / parse_tag / parse_selector, \
-         every byte string over 14 classes up to 5 (thorough 6) bytes for the date/time/date-time and range parsers; a DICOM JSON grammar (key x vr x Value x InlineBinary x BulkDataURI, pairs, nesting <= 2); pixel decoding (decode_pixel_data, decode_pixel_data_frame 0 and 1) over 8 transfer syntaxes x Rows x Columns x BitsAllocated x SamplesPerPixel x NumberOfFrames x 8 pixel data variants. \
+         every byte string over 14 classes up to 5 (thorough 6) bytes for the date/time/date-time and range parsers; a DICOM JSON grammar (key x vr x Value x InlineBinary x BulkDataURI, pairs, nesting <= 2); pixel decoding (decode_pixel_data, decode_pixel_data_frame 0 and 1) over 8 transfer syntaxes x Rows x Columns x BitsAllocated x SamplesPerPixel x NumberOfFrames x 8 pixel data variants; \
+         (4) dump: for each of the 17 text VRs and OB / UN / OW, values made of 32 periodic patterns (period 1-4) over {ASCII letter, 2-, 3-, 4-byte UTF-8 scalar, CR, LF, NUL, backslash; byte 0x80 in binary values} with every length 0..=80, single- and multi-valued in memory and read from bytes under ISO_IR 100 and ISO_IR 192, dumped with the limit ON by dump_element at every width in {0,1,40,66,67,68,80,121,200} x depth 0..2 x {limits, no_text_limit}, by DumpOptions::dump_object to stdout (worker stdout is /dev/null) at 3 of the widths rotating with the index crossed with no_text_limit / no_limit, and on one length in nine by the JSON format and DumpOptions::dump_file to stdout (text and JSON); every object read in the other families is also dumped by dump_element at width 67 or 68 (depth 0..2) and to stdout at one width (sub-sample; the full cross is in the dump family). \
          A case is (family, index, entry point, configuration, transfer syntax); distinct inputs are counted by (entry point, syntax, bytes) per shard; non-trivial = the subject was invoked on a non-empty input. \
          Oracle: Ok or Err within 5 s of CPU time (120 s wall clock), no panic (catch_unwind), no abort, no allocation failure under a 256 MiB address-space cap (worker subprocesses; the culprit of a dead worker is re-run alone twice in forked children before it is reported)",
     );
@@ -48,7 +49,7 @@ fn main() {
     }
     let enabled = |f: &str| restrict.as_ref().map(|r| r.iter().any(|x| x == f)).unwrap_or(true);
     // (family, indices per worker process quick / thorough, indices per forked child)
-    for (fam, chunk_q, chunk_t, block) in [("pixel", 16384u64, 16384u64, 8192u64), ("words", 2048, 8192, 512), ("edits", 2048, 4096, 1024), ("shorts", 2048, 65536, 1024), ("selftest", 300, 300, 64)] {
+    for (fam, chunk_q, chunk_t, block) in [("pixel", 16384u64, 16384u64, 8192u64), ("words", 2048, 8192, 512), ("edits", 2048, 4096, 1024), ("shorts", 2048, 65536, 1024), ("dump", 8192, 8192, 2048), ("selftest", 300, 300, 64)] {
         if !enabled(fam) || (fam == "selftest" && restrict.is_none()) {
             continue;
         }
